@@ -84,6 +84,7 @@ PROPS = {
 
 SHARD_LINES = 3000       # trace lines per E4 TLC process before the trace is split (the judge holds its whole trace in memory)
 NSHARD_MAX = 16
+SHARD_LINES_MAX = 20000
 
 ASSUMPTIONS = [
     "exhaustive over the abstract scenario space of the tier's TLC configuration; inside an abstract class (message kind, header class, error text class) concrete values are sampled with VERIF_SEED",
@@ -187,7 +188,9 @@ def run_corpus(name, tier, seed, work, binary):
     t2 = time.time()
     ntrace = sum(1 for _ in open(trace_file))
     # the judge reads its whole trace into memory: validate shards in parallel TLC processes
-    nsh = max(c.get("shards", 1), min(NSHARD_MAX, -(-ntrace // SHARD_LINES)))
+    # small traces: up to NSHARD_MAX parallel processes; large ones: as many shards of at most SHARD_LINES_MAX
+    # lines as it takes, NSHARD_MAX of them at a time
+    nsh = max(c.get("shards", 1), min(NSHARD_MAX, -(-ntrace // SHARD_LINES)), -(-ntrace // SHARD_LINES_MAX))
     if nsh <= 1:
         touts = [vlib.run_tlc(work, c["trace"], c["tracecfg"], env={"VERIF_TRACE": trace_file}, workers=1, timeout=3600)]
         counts = [ntrace]
@@ -204,7 +207,7 @@ def run_corpus(name, tier, seed, work, binary):
             fh.close()
         keep = [k for k in range(nsh) if counts[k]]
         files, counts = [files[k] for k in keep], [counts[k] for k in keep]
-        with concurrent.futures.ThreadPoolExecutor(max_workers=min(len(files), vlib.NCPU)) as ex:
+        with concurrent.futures.ThreadPoolExecutor(max_workers=min(len(files), NSHARD_MAX)) as ex:
             touts = list(ex.map(lambda fn: vlib.run_tlc(work, c["trace"], c["tracecfg"], env={"VERIF_TRACE": fn}, workers=1, timeout=7200), files))
     bad = {}
     drift = collections.Counter()
